@@ -637,3 +637,48 @@ M('visit_true_drops_in_dict', 'C08', IT,
                 if isinstance(key, str) and len(path) == 2:
                     continue
                 visited_item = (key, value)""")
+
+# ---------------------------------------------------------------- C15
+M('backoff_cap_ge', 'C15', IT,
+  """        elif cur < stop:
+            cur *= factor
+        if cur > stop:
+            cur = stop""",
+  """        elif cur < stop:
+            cur *= factor
+        if cur >= stop * 0.999:
+            cur = stop""")
+M('backoff_jitter_accumulates', 'C15', IT,
+  """            cur_ret = cur - (cur * jitter * random.random())""",
+  """            cur_ret = cur = cur - (cur * jitter * random.random())""")
+M('backoff_count_off_by_one', 'C15', IT,
+  """    while count == 'repeat' or i < count or short:""",
+  """    while count == 'repeat' or i < count + (factor == 3.0) or short:""")
+M('backoff_validation_late', 'C15', IT,
+  """    if jitter:
+        jitter = float(jitter)
+        if not (-1.0 <= jitter <= 1.0):
+            raise ValueError('expected jitter -1 <= j <= 1, not: %r' % jitter)""",
+  """    if jitter:
+        jitter = float(jitter)
+        if not (-1.0 <= jitter <= 1.0):
+            yield start
+            raise ValueError('expected jitter -1 <= j <= 1, not: %r' % jitter)""")
+M('backoff_factor_1_rejected', 'C15', IT,
+  """    if factor < 1.0:
+        raise ValueError('expected factor >= 1.0, not %r' % factor)""",
+  """    if factor <= 1.0:
+        raise ValueError('expected factor >= 1.0, not %r' % factor)""")
+M('backoff_zero_start_next', 'C15', IT,
+  """        if cur == 0:
+            cur = 1""",
+  """        if cur == 0:
+            cur = factor""")
+M('backoff_jitter_sign', 'C15', IT,
+  """            cur_ret = cur - (cur * jitter * random.random())""",
+  """            cur_ret = cur + (cur * jitter * random.random())""")
+M('backoff_stop_lt_start_ok', 'C15', IT,
+  """    if stop < start:
+        raise ValueError('expected stop >= start, not %r' % stop)""",
+  """    if stop < start / 2:
+        raise ValueError('expected stop >= start, not %r' % stop)""")
